@@ -17,6 +17,8 @@ import os
 import sys
 
 LEVEL = 'proof'
+# imported by the supp-side worker before any query: loaded modules 2-3 levels below their package
+DEEP_STDLIB = ['xml.etree.ElementTree', 'email.mime.text', 'concurrent.futures.thread']
 ASSUMPTIONS = [
     'the file system does not change during one query (Project._norm_cache / _module_cache staleness is C09)',
     'os.path.exists / isfile / isdir / listdir are modelled by an abstract fs; symlinks, case-insensitive '
@@ -49,6 +51,13 @@ def _worker_supp(job):
     from supp.util import split_pkg, join_pkg
     import logging
     logging.disable(logging.CRITICAL)
+    import importlib
+    # modules two and three levels below their top-level package are loaded in the analysing process
+    for deep in DEEP_STDLIB:
+        try:
+            importlib.import_module(deep)
+        except ImportError:
+            pass
 
     base = job['base']
     suffixes = list(getattr(sp, 'SUFFIXES', None) or __import__('importlib.machinery').machinery.all_suffixes())
@@ -109,6 +118,16 @@ def _worker_supp(job):
                 r = classify_exc(e)
             nm.append(r)
         res['norm'] = nm
+        # really import some deep modules of the tree (empty sources), so that sys.modules holds
+        # grandchildren of the packages that are listed below
+        sys.path[:] = t['sources'] + full
+        importlib.invalidate_caches()
+        for name in t.get('preload', []):
+            try:
+                importlib.import_module(name)
+            except Exception:  # noqa
+                pass
+        res['loaded2'] = sorted(sys.modules)
         # list_packages / assist: sys.path reduced to the tree's own extra entries
         sys.path[:] = t['extra']
         p2 = Project(list(t['sources']))
@@ -137,6 +156,12 @@ def _worker_supp(job):
             drop_fakes()
             asg.append([r, attrs, bool(requested)])
         res['assist'] = asg
+        res['loaded2_end'] = sorted(sys.modules)
+        for k in set(sys.modules) - set(loaded0):
+            sys.modules.pop(k, None)
+        for k in list(sys.path_importer_cache):
+            if k.startswith(t['tbase']):
+                sys.path_importer_cache.pop(k, None)
         sys.path[:] = full
         res['loaded_end'] = sorted(sys.modules)
         out['trees'].append(res)
@@ -266,6 +291,8 @@ HERE = os.path.abspath(__file__)
 CORPUS = os.path.join(common.VERIF, 'corpus', 'C07')
 
 POOL = ['a', 'b', 'c', 'pkg', 'mod', 'util', 'x', 'json', 'colorsys', 'textwrap', 'email', 'lib']
+DEEP_PARENTS = ['xml', 'xml.etree', 'email', 'email.mime', 'concurrent', 'concurrent.futures']
+NO_PRELOAD_TOPS = set(getattr(sys, 'stdlib_module_names', ())) | {'json', 'colorsys', 'textwrap', 'email'}
 STDLIB = ['json', 'json.decoder', 'json.nosuch', 'colorsys', 'colorsys.sub', 'textwrap', 'email.mime.text',
           'email.mime.nosuch', 'xml.dom.minidom', 'sys', 'builtins', '_thread', 'math', 'array', '_json',
           'nosuchmodule', 'nosuch.sub', 'jsom', 'json.decodr']
@@ -446,7 +473,27 @@ def fill_queries(rng, t, nnames=34, nrel=30, nlists=8, nassist=5):
     pk = [n for n in names if any(ents.get(r + '/' + n.replace('.', '/')) == 'D' for r in roots)]
     rng.shuffle(pk)
     t['lists'] = [''] + pk[:nlists] + [rng.choice(names) if names else 'a', 'nosuch', 'a.nosuch']
+    # deep modules that the analysing process really imports before the listings are asked for
+    deep = [n for n in names if n.count('.') >= 2 and n.split('.')[0] not in NO_PRELOAD_TOPS]
+    rng.shuffle(deep)
+    t['preload'] = deep[:3]
     asg = []
+    for n in t['preload']:
+        comps = n.split('.')
+        for i in range(1, len(comps)):
+            par = '.'.join(comps[:i])
+            if par not in t['lists']:
+                t['lists'].append(par)
+        par = '.'.join(comps[:rng.randint(1, len(comps) - 1)])
+        src = rng.choice(['import %s.', 'from %s.']) % par
+        asg.append({'kind': 'import' if src.startswith('import') else 'from', 'src': src + '\n',
+                    'pos': [1, len(src)], 'file': None, 'head': par})
+    for par in rng.sample(DEEP_PARENTS, 2):
+        t['lists'].append(par)
+    par = rng.choice(DEEP_PARENTS)
+    src = rng.choice(['import %s.', 'from %s.']) % par
+    asg.append({'kind': 'import' if src.startswith('import') else 'from', 'src': src + '\n',
+                'pos': [1, len(src)], 'file': None, 'head': par})
     for pkgname in pk[:nassist]:
         kind = rng.choice(['import', 'from', 'from_import'])
         f = rng.choice(fl) if fl else None
@@ -491,7 +538,7 @@ def concretise(t, tb):
     """tree spec with absolute paths, as sent to the workers."""
     ab = lambda r: os.path.join(tb, r)  # noqa
     c = {'tbase': tb, 'sources': [ab(r) for r in t['sources']], 'extra': [ab(r) for r in t['extra']],
-         'names': t['names'], 'lists': t['lists'],
+         'names': t['names'], 'lists': t['lists'], 'preload': t.get('preload', []),
          'rel': [[ab(f), g, s] for f, g, s in t['rel']],
          'assist': [dict(a, file=(ab(a['file']) if a.get('file') else None)) for a in t['assist']]}
     return c
@@ -573,7 +620,7 @@ def probe(listing, root, comps, sfx):
 
 PRELUDE_TYPES = r'''
 Record tree := mkT { t_fs : node; t_full : list path; t_short : list path;
-                     t_loaded : list (list str) }.
+                     t_loaded : list (list str); t_loaded2 : list (list str) }.
 Definition FS t := fs_of_node (t_fs t).
 Definition LS t := ls_of_node (t_fs t).
 Inductive ogm := OSource (f : path) | OImported (flag : option bool) | OImportError | OOther.
@@ -618,7 +665,7 @@ Definition find_ok (t : tree) name (r : ofind) : bool :=
 Definition listed_dirs (t : tree) pkg :=
   match pkg with [] => t_short t | _ => next_dirs (impl_lookup (FS t) SFX (t_short t) pkg) end.
 
-Definition list_model (t : tree) pkg := list_packages (FS t) (LS t) SFX (t_loaded t) (t_short t) pkg.
+Definition list_model (t : tree) pkg := list_packages (FS t) (LS t) SFX (t_loaded2 t) (t_short t) pkg.
 
 Definition code (c : tree * q) : nat :=
   let (t, qq) := c in
@@ -649,7 +696,7 @@ Definition code (c : tree * q) : nat :=
       (match norm_package (FS t) level rest file with
       | NOk pkg =>
           if withmod then
-            match get_module (FS t) SFX (t_loaded t) (t_short t) pkg, o, attrs with
+            match get_module (FS t) SFX (t_loaded2 t) (t_short t) pkg, o, attrs with
             | GImportError, OLErr, _ => 0                      (* ImportError escapes (F20 of C08) ... *)
             | GImportError, OList l, _ => if set_eqb (list_model t pkg) l then 0 else 1   (* ... or is handled *)
             | GSource f, OList l, Some a => if set_eqb (list_model t pkg ++ a) l then 0 else 1
@@ -714,11 +761,15 @@ def build_cases(ctx, t, ct, tb, sres, ores, base, sfx_all):
     loaded = [n for n in sres['loaded'] if wellformed(n)]
     full = ct['sources'] + ct['extra'] + base
     short = ct['sources'] + ct['extra']
-    defs = 'Definition tr_%s := mkT %s %s %s LOADED_%s.\n' % (
-        key, ents, coq_list([pr.path(p) for p in full]), coq_list([pr.path(p) for p in short]), sres['_loaded_key'])
+    base_loaded = set(sres['loaded'])
+    extra_loaded = [n for n in sres['loaded2'] if n not in base_loaded and wellformed(n)]
+    defs = 'Definition tr_%s := mkT %s %s %s LOADED_%s (%s ++ LOADED_%s).\n' % (
+        key, ents, coq_list([pr.path(p) for p in full]), coq_list([pr.path(p) for p in short]), sres['_loaded_key'],
+        coq_list([cname(n) for n in extra_loaded]), sres['_loaded_key'])
     cases = []
     T = 'tr_%s' % key
     loaded_set = set(sres['loaded'])
+    loaded2_set = set(sres['loaded2'])
 
     # ---- module lookups
     for name, g, f in zip(ct['names'], sres['gm'], ores['find']):
@@ -784,17 +835,19 @@ def build_cases(ctx, t, ct, tb, sres, ores, base, sfx_all):
             o = 'OLOther'
         kids, imp = ch
         ok = None
+        pre = (pkg + '.') if pkg else ''
         if l[0] == 'ok':
             missing = [k for k in kids if k not in l[1]]
             pre = (pkg + '.') if pkg else ''
-            lch = {m[len(pre):].partition('.')[0] for m in loaded_set if m.startswith(pre)}
+            lch = {m[len(pre):].partition('.')[0] for m in loaded2_set if m.startswith(pre)}
             bogus = [c for c in l[1] if not imp.get(c, False) and c not in lch]
             ok = not missing and not bogus
         else:
             missing, bogus = kids, []
             ok = False
         cases.append(Case(key, 'list', '(%s, QList %s %s (Some %s))' % (T, cname(pkg) if pkg else '[]', o, strs(kids)),
-                          {'pkg': pkg, 'supp': l, 'pkgutil': kids, 'missing': missing, 'bogus': bogus}, ok))
+                          {'pkg': pkg, 'supp': l, 'pkgutil': kids, 'missing': missing, 'bogus': bogus,
+                           'loaded_below': sorted(m for m in loaded2_set if pkg and m.startswith(pre))[:12]}, ok))
     # ---- assist on import lines
     for a, (r, attrs, req) in zip(ct['assist'], sres['assist']):
         head = a['head']
@@ -877,6 +930,9 @@ def evaluate(ctx, trees, base, strings=()):
     str_res = souts[0].get('strings', []) if souts else []
     for c, r in zip(cts, sres):
         c['proposals'] = {str(i): l[1] for i, l in enumerate(r['lists']) if l[0] == 'ok'}
+        if r['loaded2'] != r['loaded2_end']:
+            raise RuntimeError('sys.modules changed while supp answered the listing queries of one tree: %r' % (
+                sorted(set(r['loaded2_end']) ^ set(r['loaded2']))[:10],))
         if r['loaded'] != r['loaded_end']:
             raise RuntimeError('sys.modules changed while supp answered queries of one tree: %r' % (
                 sorted(set(r['loaded_end']) ^ set(r['loaded']))[:10],))
@@ -910,7 +966,7 @@ def evaluate(ctx, trees, base, strings=()):
         sc = []
         for s, (h, tl, j) in zip(strings, str_res):
             if all(x.isascii() for x in (s, h, tl, j)):
-                sc.append(Case(None, 'split', '(mkT (Node Dir []) [] [] [], QSplit (S_ "%s") (S_ "%s") (S_ "%s") (S_ "%s"))' % (s, h, tl, j),
+                sc.append(Case(None, 'split', '(mkT (Node Dir []) [] [] [] [], QSplit (S_ "%s") (S_ "%s") (S_ "%s") (S_ "%s"))' % (s, h, tl, j),
                                {'s': s, 'split': [h, tl], 'join': j}, (j == s) if '.' in s else None))
         cur_cases += sc
     if cur_cases:
@@ -926,7 +982,8 @@ def evaluate(ctx, trees, base, strings=()):
 
 
 def tree_replay(t, case):
-    return {'kind': case.kind, 'tree': {'entries': t['entries'], 'sources': t['sources'], 'extra': t.get('extra', [])},
+    return {'kind': case.kind, 'tree': {'entries': t['entries'], 'sources': t['sources'], 'extra': t.get('extra', []),
+                                        'preload': t.get('preload', [])},
             'query': case.info}
 
 
